@@ -490,6 +490,31 @@ pub fn worker_main(mon: &mut dyn Monitor, args: WorkArgs) -> i32 {
 
 pub fn replay_case(mon: &mut dyn Monitor, case: &Case) -> Value {
     install_panic_hook();
+    if let Some(seq) = case.get("__sequence") {
+        // a failure that needs the cases the same worker ran before it (state carried from one run to the next inside a
+        // process): the generated cases of the given indices are run one after the other, the last one is judged
+        let tier = seq["tier"].as_str().and_then(Tier::parse).unwrap_or(Tier::Quick);
+        let seed = seq["seed"].as_u64().unwrap_or(1);
+        let indices: Vec<u64> = seq["indices"].as_array().map(|a| a.iter().filter_map(|x| x.as_u64()).collect()).unwrap_or_default();
+        let mut cov = Cov::new();
+        let mut last = json!({"verdict": "held"});
+        for (k, idx) in indices.iter().enumerate() {
+            let Some(c) = mon.gen(tier, seed, *idx) else { continue };
+            let v = run_case_guarded(mon, &c, &mut cov);
+            if k + 1 == indices.len() {
+                last = match v {
+                    Verdict::Held => json!({"verdict": "held"}),
+                    Verdict::Discard(r) => json!({"verdict": "discard", "reason": r}),
+                    Verdict::Violated { signature, detail, narrowed } => {
+                        let base = narrowed.clone().unwrap_or_else(|| c.clone());
+                        let fine = guarded(|| mon.classify(&base, &signature)).unwrap_or_else(|_| signature.clone());
+                        json!({"verdict": "violated", "signature": format!("{}@after-earlier-cases", fine), "detail": format!("(reproduces only after the generated cases {:?} have run in the same process: state is carried from one run to the next)\n{}", &indices[..indices.len() - 1], detail)})
+                    }
+                };
+            }
+        }
+        return last;
+    }
     let mut cov = Cov::new();
     let v = run_case_guarded(mon, case, &mut cov);
     match v {
@@ -839,6 +864,38 @@ pub fn drive(id: &str, make: &dyn Fn() -> Box<dyn Monitor>, args: DriveArgs) -> 
         let limit = mon.case_cpu_limit_s() * 3.0 + 30.0;
         let (status, res) = replay_in_subprocess(id, &c.shrunk, &dir, limit);
         let (violated, sig2, detail2) = classify_replay(&status, &res, mon.death_is_violation());
+        if !violated && c.index != u64::MAX && status == "ok" {
+            // does it reproduce after the cases the same worker ran before it?
+            let jobs = args.jobs.max(1);
+            let mut idxs: Vec<u64> = vec![];
+            let mut j = c.index;
+            for _ in 0..12 {
+                if j >= jobs {
+                    j -= jobs;
+                    idxs.push(j);
+                } else {
+                    break;
+                }
+            }
+            idxs.reverse();
+            idxs.push(c.index);
+            let seq_case = json!({"__sequence": {"tier": args.tier.name(), "seed": args.seed, "indices": idxs}});
+            let (status2, res2) = replay_in_subprocess(id, &seq_case, &dir, limit * 4.0);
+            let (violated2, sig2, detail2) = classify_replay(&status2, &res2, false);
+            if violated2 {
+                if let Some(k) = known.iter().find(|k| k.status == "open" && k.matches(&sig2)) {
+                    known_seen.insert(k.key.clone());
+                    continue;
+                }
+                let mut c = c;
+                c.detail = detail2;
+                c.signature = sig2;
+                c.shrunk = seq_case.clone();
+                c.case = seq_case;
+                violations.push((c, status2));
+                continue;
+            }
+        }
         if !violated {
             unconfirmed += 1;
             notes.push(format!("candidate '{}' at index {} not reproduced in a fresh process ({}): inconclusive", c.signature, c.index, status));
@@ -961,6 +1018,13 @@ pub fn drive(id: &str, make: &dyn Fn() -> Box<dyn Monitor>, args: DriveArgs) -> 
     if !floor_failures.is_empty() {
         for f in &floor_failures {
             println!("INCONCLUSIVE: coverage floor not met: {}", f);
+        }
+        return 2;
+    }
+    if unconfirmed >= 3 {
+        println!("INCONCLUSIVE: {} failures seen by the workers reproduced neither alone nor after their predecessor cases in a fresh process", unconfirmed);
+        for n in notes.iter().take(5) {
+            println!("  {}", n);
         }
         return 2;
     }
